@@ -2261,3 +2261,210 @@ Theorem progress_partial2 P cfg s : reachable P cfg s ->
 Proof.
   intros R rank H1 H2 Hex. apply (progress_partial P cfg s R rank H1 H2 (shutdown_has_its_waiter P cfg s R) Hex).
 Qed.
+
+(* ================================================================== *)
+(* C03: hypothesis H2 of the progress theorem follows from the shape of admissible programs: handlers, filters and
+   hooks do not call Wait or Shutdown (the property lets them publish, subscribe, unsubscribe and clear).  Then, in
+   every reachable state, Wait / Shutdown instructions sit only below every delivery frame of their goroutine. *)
+Definition wait_act (a : action) : bool := match a with AWait | AShutdown _ => true | _ => false end.
+Definition waitish (i : instr) : bool :=
+  match i with IAct a | IDo a => wait_act a | IShutdownSelect _ _ | IWaiterDone _ => true | _ => false end.
+Definition frameish (i : instr) : bool :=
+  match i with ITaskStart _ _ | ITaskDone | IRecover _ _ _ | IUnlock _ | ILock _ | IHandlerStart _ _ _ => true | _ => false end.
+Definition nowait (c : list instr) : Prop := forall i, In i c -> waitish i = false.
+Definition noframe (c : list instr) : Prop := forall i, In i c -> frameish i = false.
+Definition wb (c : list instr) : Prop := forall pre x post, c = pre ++ x :: post -> waitish x = true -> noframe post.
+
+Definition Pwf (P : program) : Prop :=
+  (forall b a, In a (body_of P b) -> wait_act a = false) /\
+  (forall f fl, assoc_get (p_filters P) f = Some fl -> forall a, In a (f_acts fl) -> wait_act a = false).
+
+Lemma nowait_app a b : nowait a -> nowait b -> nowait (a ++ b).
+Proof. intros Ha Hb i Hi. apply in_app_or in Hi. destruct Hi; auto. Qed.
+Lemma nowait_cons i c : waitish i = false -> nowait c -> nowait (i :: c).
+Proof. intros Hi Hc x [<-|Hx]; auto. Qed.
+Lemma nowait_nil : nowait []. Proof. intros i []. Qed.
+Lemma nowait_acts l : (forall a, In a l -> wait_act a = false) -> nowait (acts l).
+Proof. intros H i Hi. unfold acts in Hi. apply in_map_iff in Hi. destruct Hi as [a [<- Ha]]. cbn. apply H, Ha. Qed.
+Lemma nowait_entries p l : nowait (map (IEntry p) l).
+Proof. intros i Hi. apply in_map_iff in Hi. destruct Hi as [a [<- _]]. reflexivity. Qed.
+Lemma nowait_shards l : nowait (map IClearShard l).
+Proof. intros i Hi. apply in_map_iff in Hi. destruct Hi as [a [<- _]]. reflexivity. Qed.
+Lemma nowait_after_recover cfg p h async panicked : nowait (after_recover cfg p h async panicked).
+Proof.
+  unfold after_recover. repeat apply nowait_app;
+    [destruct (h_seq (r_spec h)) | destruct (panicked && c_panic_handler cfg) | destruct (c_obs cfg) | destruct async];
+    try apply nowait_nil; intros i [<-|[]]; reflexivity.
+Qed.
+Lemma nowait_call_handler P p h async obs : Pwf P -> nowait (call_handler P p h async obs).
+Proof.
+  intros [HP _]. unfold call_handler. repeat apply nowait_app; try (apply nowait_acts, HP);
+    [destruct obs | destruct (h_seq (r_spec h)) | | ]; try apply nowait_nil; intros i [<-|[]]; reflexivity.
+Qed.
+Lemma nowait_filter_acts P f : Pwf P -> nowait (acts (match assoc_get (p_filters P) f with Some fl => f_acts fl | None => [] end)).
+Proof.
+  intros [_ HF]. destruct (assoc_get (p_filters P) f) as [fl|] eqn:E; [apply nowait_acts, (HF f fl E) | apply nowait_nil].
+Qed.
+
+Lemma wb_suffix pre c : wb (pre ++ c) -> wb c.
+Proof. intros H p x post E W. apply (H (pre ++ p) x post); [rewrite E, app_assoc; reflexivity | exact W]. Qed.
+Lemma wb_nowait_app X suf : nowait X -> wb suf -> wb (X ++ suf).
+Proof.
+  induction X as [|y X IH]; intros Hn Hs; [exact Hs|].
+  intros pre x post E W. destruct pre as [|p0 pre]; cbn in E; inversion E; subst.
+  - rewrite (Hn x (or_introl eq_refl)) in W. discriminate.
+  - apply (IH (fun i Hi => Hn i (or_intror Hi)) Hs pre x post); [assumption | exact W].
+Qed.
+Lemma wb_head x rest : wb (x :: rest) -> waitish x = true -> noframe rest.
+Proof. intros H W. apply (H [] x rest eq_refl W). Qed.
+Lemma noframe_wb c : noframe c -> wb c.
+Proof. intros H pre x post E _ i Hi. apply H. rewrite E. apply in_or_app. right. right. exact Hi. Qed.
+Lemma wb_cons_noframe x rest : noframe rest -> wb (x :: rest).
+Proof.
+  intros H pre y post E W. destruct pre as [|p0 pre]; cbn in E; inversion E; subst; [exact H|].
+  intros i Hi. apply H. apply in_or_app. right. right. exact Hi.
+Qed.
+
+Lemma splits_nil (rest : list instr) : rest = [] ++ rest. Proof. reflexivity. Qed.
+Lemma splits_cons (i : instr) c rest X : c = X ++ rest -> i :: c = (i :: X) ++ rest.
+Proof. intros ->. reflexivity. Qed.
+Lemma splits_app (l c rest X : list instr) : c = X ++ rest -> l ++ c = (l ++ X) ++ rest.
+Proof. intros ->. rewrite app_assoc. reflexivity. Qed.
+
+Ltac sp_tac := repeat first [apply splits_nil | apply splits_cons | apply splits_app].
+Ltac nw_tac HP :=
+  repeat first
+    [ apply nowait_nil
+    | apply nowait_after_recover
+    | apply (nowait_call_handler _ _ _ _ _ HP)
+    | apply (nowait_filter_acts _ _ HP)
+    | apply nowait_acts, (proj1 HP)
+    | apply nowait_entries
+    | apply nowait_shards
+    | apply nowait_cons; [reflexivity|]
+    | apply nowait_app
+    | match goal with |- nowait (if ?b then _ else _) => destruct b end
+    | match goal with |- nowait (match ?b with _ => _ end) => destruct b end
+    | (let i := fresh in let H := fresh in intros i H; destruct H as [<-|[]]; reflexivity)
+    | (let i := fresh in let H := fresh in intros i H; destruct H) ].
+
+Ltac fin_wait HP :=
+  eexists; split;
+  [first [apply code_cont | (cbn [cont set_code code]; rewrite ?upd_pub_code; apply assoc_get_set_same)]
+  | left; eexists; match goal with Hr : _ |- context[step_instr] => idtac | _ => idtac end;
+    match goal with rest : list instr |- _ => exists rest, []; split; [sp_tac | split; [reflexivity | nw_tac HP]] end].
+
+Lemma step_wait P cfg s a i rest s' ls :
+  Pwf P -> step_instr P cfg s a i rest = Some (s', ls) ->
+  exists newc, assoc_get (code s') a = Some newc /\
+   ((exists X suf drop, newc = X ++ suf /\ rest = drop ++ suf /\ nowait X) \/
+    (waitish i = true /\ (newc = rest \/ exists x, newc = x :: rest))).
+Proof.
+  intros HP H. destruct i; cbn [step_instr] in H.
+  all: try (break_head H; try discriminate; inversion H; subst; clear H; solve [fin_wait HP]).
+  - (* IAct *)
+    inversion H; subst; clear H.
+    match goal with |- context[IDo ?act] => destruct (wait_act act) eqn:Ew;
+      [ eexists; split; [apply code_cont|]; right; split; [exact Ew|]; right; eexists; reflexivity
+      | eexists; split; [apply code_cont|]; left; exists [IDo act], rest, []; split; [reflexivity|]; split; [reflexivity|];
+        intros x [<-|[]]; exact Ew ] end.
+  - (* IDo *)
+    destruct a0; cbn [step_instr] in H; break_head H; try discriminate; inversion H; subst; clear H;
+      try solve [fin_wait HP].
+    + (* AShutdown *) eexists. split; [apply code_cont|]. right. split; [reflexivity|]. right. eexists. reflexivity.
+    + (* APanic recovered *)
+      match goal with U : unwind rest = Some (?p, ?h, ?async, ?r) |- _ =>
+        apply unwind_spec in U; destruct U as [pre [E _]];
+        eexists; split; [apply code_cont|]; left; eexists; eexists; exists (pre ++ [IRecover p h async]);
+        split; [reflexivity|]; split; [rewrite E, <- app_assoc; reflexivity | apply nowait_after_recover] end.
+Qed.
+
+Definition wbinv (s : bstate) : Prop := forall a c, assoc_get (code s) a = Some c -> wb c.
+
+Lemma wbinv_step P cfg s b s' ls : Pwf P -> winv s -> wbinv s -> mstep P cfg s b = Some (s', ls) -> wbinv s'.
+Proof.
+  intros HP WI WB H. unfold mstep in H.
+  destruct (assoc_get (code s) b) as [[|i rest]|] eqn:Hb; try discriminate.
+  pose proof (WB b _ Hb) as Wold.
+  assert (Hnb : b <> next_actor s) by (destruct (wi_bound s WI b _ Hb); lia).
+  destruct (step_wait P cfg s b i rest s' ls HP H) as [newc [Hnew Hcase]].
+  pose proof (step_frame2 P cfg s b i rest s' ls H Hnb) as F.
+  intros a c Ha. destruct (Nat.eq_dec a b) as [->|N].
+  - rewrite Hnew in Ha. inversion Ha; subst c.
+    destruct Hcase as [[X [suf [drop [-> [E Hn]]]]] | [Wi [-> | [x ->]]]].
+    + apply wb_nowait_app; [exact Hn|]. apply (wb_suffix (i :: drop)). cbn. rewrite <- E. exact Wold.
+    + apply noframe_wb. apply (wb_head i rest Wold Wi).
+    + apply wb_cons_noframe. apply (wb_head i rest Wold Wi).
+  - destruct (F a N) as [E | [-> [[p [h E]] | [cx [_ E]]]]].
+    + rewrite E in Ha. apply (WB a c Ha).
+    + rewrite E in Ha. inversion Ha. apply wb_cons_noframe. intros x [].
+    + rewrite E in Ha. inversion Ha. apply wb_cons_noframe. intros x [].
+Qed.
+
+Lemma wbinv_init threads : wbinv (init_state threads).
+Proof.
+  intros a c H.
+  assert (Hi: In (a, c) (combine (seq 0 (length threads)) (map acts threads))).
+  { unfold init_state in H. cbn [code] in H.
+    induction (combine (seq 0 (length threads)) (map acts threads)) as [|[k v] r IH]; [discriminate|].
+    cbn in H. destruct (Nat.eqb k a) eqn:E; [apply Nat.eqb_eq in E; inversion H; subst; left; reflexivity|right; apply IH, H]. }
+  apply in_combine_r in Hi. apply in_map_iff in Hi. destruct Hi as [l [<- _]].
+  apply noframe_wb. intros i Hi. unfold acts in Hi. apply in_map_iff in Hi. destruct Hi as [x [<- _]]. reflexivity.
+Qed.
+
+Lemma wbinv_run P cfg : Pwf P -> forall sched s, winv s -> wbinv s -> wbinv (fst (run P cfg s sched)).
+Proof.
+  intros HP. induction sched as [|a r IH]; intros s I S; cbn [run]; [exact S|].
+  destruct (mstep P cfg s a) as [[s' ls]|] eqn:E.
+  - specialize (IH s' (winv_step P cfg s a s' ls I E) (wbinv_step P cfg s a s' ls HP I S E)). destruct (run P cfg s' r). exact IH.
+  - apply IH; assumption.
+Qed.
+
+Lemma noframe_weight c : noframe c -> weight c = 0.
+Proof.
+  induction c as [|i c IH]; intros H; [reflexivity|]. unfold weight in *. cbn [fold_right].
+  rewrite IH by (intros x Hx; apply H; right; exact Hx).
+  specialize (H i (or_introl eq_refl)). destruct i; try discriminate H; try reflexivity.
+Qed.
+Lemma noframe_heldc rid c : noframe c -> heldc rid c = 0.
+Proof.
+  induction c as [|i c IH]; intros H; [reflexivity|]. rewrite heldc_cons.
+  rewrite IH by (intros x Hx; apply H; right; exact Hx).
+  specialize (H i (or_introl eq_refl)). destruct i; try discriminate H; reflexivity.
+Qed.
+
+(* in programs whose handlers, filters and hooks do not call Wait or Shutdown, a goroutine that sits in Wait, in
+   Shutdown's select or is Shutdown's waiter is not an in-flight delivery and holds no handler mutex *)
+Theorem waiting_goroutines_are_outside_handlers P cfg s : Pwf P -> reachable P cfg s ->
+  forall a i rest, assoc_get (code s) a = Some (i :: rest) -> waitish i = true ->
+    weight (i :: rest) = 0 /\ forall rid, held rid (i :: rest) = 0.
+Proof.
+  intros HP [threads [sched ->]] a i rest Ha Wi.
+  pose proof (wbinv_run P cfg HP sched _ (winv_init threads) (wbinv_init threads) a _ Ha) as W.
+  pose proof (wb_head i rest W Wi) as Nf.
+  split.
+  - unfold weight. cbn [fold_right]. change (fold_right (fun i n => weight_i i + n) 0 rest) with (weight rest).
+    rewrite (noframe_weight rest Nf). destruct i; try discriminate Wi; reflexivity.
+  - intros rid. assert (E : held rid (i :: rest) = heldc rid (i :: rest)) by (destruct i; try discriminate Wi; reflexivity).
+    rewrite E, heldc_cons, (noframe_heldc rid rest Nf). destruct i; try discriminate Wi; reflexivity.
+Qed.
+
+(* PROGRESS: for programs whose handlers, filters and hooks do not call Wait or Shutdown, in every reachable state in
+   which no goroutine has died of an unrecovered panic (which in Go ends the process) and the goroutines waiting for
+   handler mutexes do not wait in a cycle (the documented exception), some goroutine can step whenever one is unfinished *)
+Theorem progress P cfg s : Pwf P -> reachable P cfg s ->
+  forall rank : actor -> nat,
+  (forall a h rest b, assoc_get (code s) a = Some (ILock h :: rest) -> assoc_get (seqlocks s) (r_id h) = Some b -> rank b < rank a) ->
+  (forall a rest, assoc_get (code s) a <> Some (ICrashed :: rest)) ->
+  (exists a i rest, assoc_get (code s) a = Some (i :: rest)) ->
+  exists b s' ls, mstep P cfg s b = Some (s', ls).
+Proof.
+  intros HP R rank H1 Hnc [a [i [rest Ha]]].
+  apply (progress_partial2 P cfg s R rank H1).
+  - intros a0 i0 rest0 Ha0 St. destruct i0; try discriminate St.
+    + destruct a1; try discriminate St. apply (waiting_goroutines_are_outside_handlers P cfg s HP R a0 _ rest0 Ha0). reflexivity.
+    + apply (waiting_goroutines_are_outside_handlers P cfg s HP R a0 _ rest0 Ha0). reflexivity.
+    + apply (waiting_goroutines_are_outside_handlers P cfg s HP R a0 _ rest0 Ha0). reflexivity.
+    + exfalso. apply (Hnc a0 rest0 Ha0).
+  - exists a, i, rest. split; [exact Ha|]. intros ->. apply (Hnc a rest Ha).
+Qed.
